@@ -210,9 +210,19 @@ class ScoreDur(Stream):
             ch = ch(**{f"piano__{i}": Melody([Note("s", 0, 0, F(d)) for d in p]) for i, p in enumerate(parts)})
             chords.append(ch)
         sc = Score(chords)
-        return {"dur": F(sc.duration), "chords": [F(c.duration) for c in sc.chords], "concat": F((sc + sc).duration),
-                "repeat": F((sc * case["k"]).duration), "chord_plus": F((chords[0] + chords[-1]).duration),
-                "chord_mul": F((chords[0] * case["k"]).duration)}
+        out = {"dur": F(sc.duration), "chords": [F(c.duration) for c in sc.chords], "concat": F((sc + sc).duration),
+               "repeat": F((sc * case["k"]).duration), "chord_plus": F((chords[0] + chords[-1]).duration),
+               "chord_mul": F((chords[0] * case["k"]).duration)}
+        # every note of a chord / score is multiplied by k, whatever the lengths of the parts
+        k = F(case["k"], 2)
+        out["aug_chord"] = [[[F(n.duration) for n in m.notes] for m in c.augment(k).score.values()] for c in chords]
+        out["aug_score"] = [[[F(n.duration) for n in m.notes] for m in c.score.values()] for c in sc.augment(k).chords] if hasattr(sc, "augment") else None
+        # the same score object after its duration has been read, edited with the in-place form score[i] = chord
+        edited = Score(list(chords))
+        _ = edited.duration, [c.duration for c in edited.chords]
+        edited[0] = chords[-1] * 2 if not isinstance(chords[-1] * 2, Score) else (chords[-1] * 2).chords[0]
+        out["edited"] = [F(edited.duration), sum((F(c.duration) for c in edited.chords), F(0)), F(Score(list(edited.chords)).duration)]
+        return out
 
     def term(self, case, r):
         return T(L([L([Ql(p) for p in parts]) for parts in case["s"]]), Qc(r["dur"]))
@@ -226,6 +236,18 @@ class ScoreDur(Stream):
         if r["concat"] != 2 * sum(cd) or r["repeat"] != case["k"] * sum(cd) or r["chord_plus"] != cd[0] + cd[-1] \
                 or r["chord_mul"] != case["k"] * cd[0]:
             return {"sig": "score-concat-repeat-duration", "msg": str(r)}
+        k = F(case["k"], 2)
+        want = [[[(F(x) * k).limit_denominator(1000) for x in p] for p in parts] for parts in case["s"]]      # 1/1000 resolution of durations
+        # a chord without parts has no note to multiply (its augment builds a rest): not judged
+        keep = [i for i, parts in enumerate(case["s"]) if parts]
+        want = [want[i] for i in keep]
+        r = dict(r, aug_chord=[r["aug_chord"][i] for i in keep], aug_score=None if r["aug_score"] is None or len(keep) != len(case["s"]) else r["aug_score"])
+        if r["aug_chord"] != want:
+            return {"sig": "chord-augment-not-per-note", "msg": f"augment({k}): {r['aug_chord']} expected {want}"}
+        if r["aug_score"] is not None and r["aug_score"] != want:
+            return {"sig": "score-augment-not-per-note", "msg": f"augment({k}): {r['aug_score']} expected {want}"}
+        if len(set(r["edited"])) != 1:
+            return {"sig": "score-duration-stale-after-item-assignment", "msg": f"duration {r['edited'][0]}, sum of chords {r['edited'][1]}, rebuilt {r['edited'][2]}"}
         return None
 
     def nontrivial(self, case, r):
